@@ -35,7 +35,7 @@ func plans() map[string][]streamPlan {
 		"C02": {{"proj", 25000, 500000}, {"vproj", 8000, 150000}},
 		"C03": {{"prec", 20000, 400000}, {"spelling", 6000, 150000}, {"syntax-enum", syntaxEnumCount(3), syntaxEnumCount(4)}, {"depth", depthCount(), depthCount()}},
 		"C04": {{"syntax-enum", syntaxEnumCount(3), syntaxEnumCount(4)}, {"syntax", 15000, 500000}, {"hostile", 4000, 50000}, {"depth", depthCount(), depthCount()}},
-		"C05": {{"hostile", 15000, 300000}, {"bytes", 20000, 500000}, {"expr", 10000, 200000}, {"fnmatrix", matrixCount(2), matrixCount(3)}, {"fnseq", 8000, 100000}, {"depth", depthCount(), depthCount()}},
+		"C05": {{"hostile", 15000, 300000}, {"bytes", 20000, 500000}, {"expr", 10000, 200000}, {"fnmatrix", matrixCount(2), matrixCount(3)}, {"fnseq", 8000, 100000}, {"depth", depthCount(), depthCount()}, {"fn", 8000, 200000}},
 		"C06": {{"fnpaths", 25000, 500000}, {"api", 1500, 40000}, {"expr", 5000, 100000}},
 		"C07": {{"truth", truthCount(), truthCount()}, {"truth-nest", 10000, 500000}},
 		"C08": {{"slice", sliceCount(6), sliceCount(9)}, {"slice-big", sliceBigCount() + 5000, sliceBigCount() + 300000}, {"typed", 3000, 60000}},
